@@ -68,28 +68,35 @@ def run(chk):
                 chk.tie_broken('correspondence:frame-model', 'the frame-level model (block bodies replayed) does not reproduce the real frame: level %s, %d input bytes; model: %s real: %s' % (
                     ml[0], len(unhex(ml.split()[5])), (got or '')[:80], hexs(exp)[:80]))
     chk.cov['disagreements_checked'] += ndis
-    # compressed blocks whose literals went out raw: the block model of C02_raw_literal_block_decodes applied to the
-    # literals, distributions and sequences the decoder model reads out of the real block must give the real block,
-    # and the theorem's side conditions must hold on it
-    bodies = []
+    # every compressed block of every frame (raw or Huffman-coded literals, with description or treeless): taken apart by
+    # the decoder model -- which carries the Huffman table from block to block as the decoder does -- and written again by
+    # the encoder models of C02_fastest_roundtrip; the bytes must be the real block, and the per-block obligations O1
+    # ([section_hyps_b]) and O2 (raw literals, or [huf_side_b]: the table resolves the code words) must evaluate to true
+    fl, fmeta = [], []
     for f, d, l, ln in items:
         w = framegen.walk_blocks(f)
-        for (p, last, ty, size, body) in (w[1] if w else []):
-            if ty == 2 and body > 0 and (f[p + 3] & 3) == 0 and body < 60000:
-                bodies.append((f[p + 3:p + 3 + body], l))
-    bodies = bodies[:400 if thorough else 150]
-    br = model_run('rawblock', [hexs(b) for b, l in bodies], timeout=1500)
-    nrb = 0
-    for (b, l), r in zip(bodies, br):
+        bodies = [f[p + 3:p + 3 + body] for (p, last, ty, size, body) in (w[1] if w else []) if ty == 2]
+        if bodies and sum(len(b) for b in bodies) < (400000 if thorough else 150000):
+            fl.append(' '.join(hexs(b) for b in bodies))
+            fmeta.append((l, len(bodies), [b[0] & 3 for b in bodies]))
+    fl, fmeta = fl[:200 if thorough else 45], fmeta[:200 if thorough else 45]
+    br = model_run('blocks', fl, timeout=2400)
+    nrb = nhuf = 0
+    for (l, nb, kinds), r in zip(fmeta, br):
         w = (r or 'missing').split()
-        if len(w) < 3 or w[0] != 'ok' or w[2] != hexs(b):
-            chk.tie_broken('correspondence:raw-literal-block', 'the block model does not reproduce a real compressed block with raw literals (%s, %d bytes): model %s real %s' % (
-                l, len(b), (r or '')[:80], hexs(b)[:80]))
+        if len(w) != nb + 1 or w[0] != 'ok':
+            chk.tie_broken('correspondence:compressed-block', 'the decoder model could not take the compressed blocks of a real frame apart (%s): %s' % (l, (r or '')[:80]))
             break
-        if w[1] != '1':
-            chk.tie_broken('model:raw-literal-block', 'a real compressed block does not meet the side conditions of the block theorem (%s, %d bytes)' % (l, len(b)))
+        if any(x[1] != '1' for x in w[1:]):
+            k = [x[1] for x in w[1:]].index('0')
+            chk.tie_broken('correspondence:compressed-block', 'the encoder models do not reproduce compressed block %d of a real frame (%s; literals type %d)' % (k, l, kinds[k]))
             break
-        nrb += 1
+        if any(x[0] != '1' for x in w[1:]):
+            k = [x[0] for x in w[1:]].index('0')
+            chk.tie_broken('model:compressed-block', 'compressed block %d of a real frame does not meet the per-block obligations O1 / O2 of the round-trip theorem (%s; literals type %d)' % (k, l, kinds[k]))
+            break
+        nrb += nb
+        nhuf += sum(1 for t in kinds if t >= 2)
     # ... and from the data: for small single-block inputs whose block has raw literals, the match finder model's report,
     # split as compress_block splits it, written by the block model, must be the real block (this is the chain of
     # C02_fastest_block_step_with_raw_literals executed end to end)
@@ -120,7 +127,7 @@ def run(chk):
         kinds[c['kind'].split('-')[0] if c['kind'].startswith('gen') else c['kind']] = kinds.get(c['kind'], 0) + 1
     chk.add_samples('roundtrip', len(items), len(set(f for f, d, l, ln in items)), [{'kind': cases[0]['kind'], 'command': lines[0][:120]}, {'kind': cases[-1]['kind'], 'command': lines[-1][:120]}],
                     rule='path-directed inputs (empty, 1 byte, 128 KiB -1/0/+1, two blocks, runs, treeless reuse, raw block between similar blocks, literal counts 1023..1026 and 16383..16385, wide / two-symbol alphabets, long matches and literal runs, far-end-of-window match, block-boundary straddle) and generated contents x {Uncompressed, Fastest} x reader fragment sizes {whole, 1, 7, 1000, 65536, 131071}; 2-4 frames through one reused compressor')
-    chk.cov['components']['roundtrip'].update({'frames_model_vs_real': len(mlines), 'raw_literal_blocks_rewritten_identically_with_side_conditions': nrb, 'first_blocks_reproduced_from_data_by_matcher_and_block_models': nfb, 'block_types': block_type_histogram([f for f, d, l, ln in items])})
+    chk.cov['components']['roundtrip'].update({'frames_model_vs_real': len(mlines), 'compressed_blocks_rewritten_identically_with_obligations_O1_O2': nrb, 'of_which_huffman_literals': nhuf, 'first_blocks_reproduced_from_data_by_matcher_and_block_models': nfb, 'block_types': block_type_histogram([f for f, d, l, ln in items])})
 
 
 def block_type_histogram(frames):
